@@ -7,6 +7,7 @@ Oracle: the model's own parse (defined-metric map / model key).
 """
 
 import itertools
+import json
 
 from .. import core, observe, sweep
 from ..ref import tables as T
@@ -100,6 +101,74 @@ class Duck(object):
         return hash(self.like)
 
 
+_SUBS = {}
+
+
+def _subclasses(cls):
+    if cls not in _SUBS:
+        _SUBS[cls] = (type("Finding", (cls,), {}), type("Advisory", (cls,), {"source": "feed"}))
+    return _SUBS[cls]
+
+
+PRODUCER = r"""
+import pickle, sys, json
+sys.path.insert(0, sys.argv[1])
+import cvss
+from cvss.parser import parse_cvss_from_text
+items = json.loads(sys.stdin.read())
+out = []
+seen = set()
+for major, v in items:
+    o = {2: cvss.CVSS2, 3: cvss.CVSS3, 4: cvss.CVSS4}[major](v)
+    seen.add(o); hash(o); o == o
+    out.append(o)
+    if major != 4:
+        out.extend(parse_cvss_from_text(v))
+    else:
+        out.append(o)
+sys.stdout.buffer.write(pickle.dumps(out, 2))
+"""
+
+
+def _travel_task(t):
+    """Objects built, hashed and pickled in ANOTHER process (its own hash seed) and unpickled here:
+    each must equal, and hash like, a fresh object of its vector - a worker pool, a queue or a
+    disk cache moves objects between processes exactly like this."""
+    import pickle
+    import subprocess
+    import sys
+    seed, items = t
+    acc = sweep.new_acc()
+    env = {"PYTHONHASHSEED": str(seed), "PATH": "/usr/bin:/bin", "PYTHONDONTWRITEBYTECODE": "1"}
+    p = subprocess.Popen([sys.executable, "-c", PRODUCER, core.REPO], stdin=subprocess.PIPE, stdout=subprocess.PIPE,
+                         stderr=subprocess.PIPE, env=env, cwd="/")
+    out, err = p.communicate(json.dumps(items).encode("utf-8"))
+    if p.returncode != 0:
+        sweep.bad(acc, {"what": "objects cannot be pickled in a producer process: %s" % err.decode("utf-8", "replace")[-300:],
+                        "kind": "travel", "input": [seed, items[:3]], "signature": {"kind": "travel"}})
+        return acc
+    try:
+        objs = pickle.loads(out)
+    except Exception as e:  # noqa
+        sweep.bad(acc, {"what": "objects pickled in another process cannot be unpickled: %s: %s" % (type(e).__name__, e),
+                        "kind": "travel", "input": [seed, items[:3]], "signature": {"kind": "travel"}})
+        return acc
+    for k, (major, v) in enumerate(items):
+        for o in objs[2 * k:2 * k + 2]:
+            acc["n"] += 1
+            acc["cmp"] += 4
+            fresh = type(o)(v)
+            if not (o == fresh) or not (fresh == o) or hash(o) != hash(fresh) or o not in set([fresh]) or \
+                    fresh not in set([o]) or o.clean_vector() != fresh.clean_vector() or o.scores() != fresh.scores():
+                sweep.bad(acc, {"what": "%s(%r) built, hashed and pickled in a process with PYTHONHASHSEED=%s, unpickled "
+                                "here: not equal to / not hashing like a fresh object of the same vector" % (
+                                    type(o).__name__, v, seed), "kind": "travel", "input": [seed, [[major, v]]],
+                                "signature": {"kind": "travel"}})
+                return acc
+            acc["nontrivial"] += 1
+    return acc
+
+
 def unary(i):
     fam, s, key = _U[i]
     cls = observe.cls_of(fam)
@@ -143,6 +212,32 @@ def unary(i):
             return "object is not equal to itself", None
         if x.as_json() == x or x == x.as_json():
             return "object compares equal to its JSON dict", None
+        # instances of trivial application subclasses (class Finding(CVSS3): pass) are objects of
+        # the same CVSS version defining the same metric values
+        Sub1, Sub2 = _subclasses(cls)
+        subs = [("a subclass instance", Sub1(s)), ("an instance of a sibling subclass", Sub2(s)),
+                ("a subclass instance built from the cleaned vector", Sub1(cv))]
+        for name, o in subs:
+            if not (o == x) or not (x == o) or (o != x) or (x != o) or hash(o) != hash(x) or o not in set([x]) or x not in set([o]):
+                return "%s is not equal to / does not hash like the plain object of the same vector" % name, None
+        if not (subs[0][1] == subs[1][1]) or hash(subs[0][1]) != hash(subs[1][1]):
+            return "instances of two sibling subclasses built from the same vector are not equal", None
+        # the same vector through every entry point: one value, whichever way it was obtained
+        # (objects of different origin meet in one set or dictionary in any consumer that merges feeds)
+        group = [("constructor", x)]
+        for e in observe.ENTRIES:
+            observe.ENTRY = e
+            try:
+                group.append((e, observe.construct(fam, s)))
+            finally:
+                observe.ENTRY = "direct"
+        for (ea, a), (eb, b) in itertools.permutations(group, 2):
+            if not (a == b) or (a != b) or hash(a) != hash(b):
+                return "the object obtained through %s and the one obtained through %s are not equal / do not hash alike" % (ea, eb), None
+        if len(set(o for _, o in group)) != 1 or len(dict((o, 1) for _, o in group[::-1])) != 1:
+            return "objects of the same vector obtained through different entry points do not collapse in a set", None
+        if any(o.clean_vector() != cv or o.scores() != x.scores() for _, o in group):
+            return "objects of the same vector obtained through different entry points differ in clean_vector()/scores()", None
     except Exception as e:  # noqa
         return "raised %s: %s" % (type(e).__name__, e), None
     return None, ms
@@ -353,6 +448,9 @@ def run(ctx, res):
             break
     accs_e = core.task_map(_ext_task, core.split_range(len(_EXT), 64))
     accs_e += core.task_map(_longevity_task, list(T.FAMILIES))
+    travellers = [[int(f[0]), s] for f, s, k in _U[::max(1, len(_U) // 240)]]
+    accs_e += core.task_map(_travel_task, [(seed, travellers[i::4]) for i, seed in enumerate((101, 202, 7, "random"))])
+    res.coverage["objects_pickled_in_other_processes"] = 2 * len(travellers)
     bad_unary = sum(a["nbad"] for a in accs)
     if bad_unary == 0:
         accs_p = core.task_map(_pair_task, ctx.rot(core.split_range(len(_U), 256 if ctx.thorough else 128)))
@@ -399,6 +497,9 @@ def run(ctx, res):
 
 def replay(case):
     global _U, _OBJ
+    if case["kind"] == "travel":
+        acc = _travel_task((case["input"][0], case["input"][1]))
+        return bool(acc["bad"]), (acc["bad"][0]["what"] if acc["bad"] else "equal and hashing alike")
     if case["kind"] == "longevity":
         acc = _longevity_task(case["input"])
         return bool(acc["bad"]), (acc["bad"][0]["what"] if acc["bad"] else "stable")
